@@ -11,7 +11,7 @@
    tol_outer, the constraint error is looked at first, an unknown criterion raises only when it is reached - is the code's.
    Definitions only; Proofs/ConstraintsProofsStop.v relates constrained_cp_c to constrained_cp. *)
 From Coq Require Import List Arith Bool.
-From TLV Require Import Base.PyList Base.Tensor Model.Constraints.
+From TLV Require Import Base.PyList Base.Tensor Base.Ops Model.Constraints.
 Import ListNotations.
 
 Inductive crit := CrAbsRecError | CrRecError | CrUnknown.
@@ -60,6 +60,25 @@ Section StopRule.
     mkEnv (e_split E) (e_conv E) (fun it fs du => match stop_at S it fs du with Ok b => b | Err => true end) (e_errdef E).
 End StopRule.
 Arguments mkStop {M}.
+
+(* ------------------------------------------------------------------ the three comparisons AS NUMBERS (round 8)
+   stop_env keeps `constraint_error < tol_outer`, `abs(rec_error_decrease) < tol_outer`, `rec_error_decrease < tol_outer` as arbitrary
+   booleans.  stop_env_num computes them over a record of field operations from
+     tol      - tol_outer (a number; `if tol_outer:` is its Python truthiness: non-zero, so a NEGATIVE tolerance is truthy),
+     cerr it  - constraint_error after sweep `it`,        err it - rec_errors[it], the reconstruction error after sweep `it`
+   (numerical content: arbitrary sequences), with rec_error_decrease = rec_errors[-2] - rec_errors[-1] = err (it-1) - err it and strict
+   comparisons, as written.  It is an instance of stop_env: every theorem about constrained_cp_c holds of it.  The correspondence
+   executes it at exact rationals on the sequences recorded in real runs and compares the NUMBER OF SWEEPS (Corr/C11.v CStopNum). *)
+Section StopNum.
+  Context {F : Type} (Op : fops F) {M : Type}.
+  Definition f_truthy (x : F) : bool := negb (fleb Op x (f0 Op) && fleb Op (f0 Op) x).
+  Definition decrease (err : nat -> F) (it : nat) : F := fsub Op (err (it - 1)) (err it).
+  Definition stop_env_num (tol : F) (c : crit) (cerr err : nat -> F) : stop_env (M := M) :=
+    mkStop (f_truthy tol) c
+           (fun it _ _ => fltb Op (cerr it) tol)
+           (fun it _ _ => fltb Op (fabs Op (decrease err it)) tol)
+           (fun it _ _ => fltb Op (decrease err it) tol).
+End StopNum.
 
 (* ------------------------------------------------------------------ the class API
    ConstrainedCP.__init__ stores its arguments as attributes; fit_transform(tensor) calls constrained_parafac with the stored
